@@ -4,6 +4,7 @@ package main
 import (
 	"fmt"
 	"go/types"
+	"regexp"
 	"sort"
 	"strings"
 )
@@ -149,8 +150,12 @@ func isPtr(t types.Type) bool   { _, ok := under(t).(*types.Pointer); return ok 
 
 var tnameRepl = strings.NewReplacer(" ", "", "*", "P.", "[", "<", "]", ">", "{", "(", "}", ")", ";", ",", "|", "!", "\\", "!", "\"", "'", "\n", "", "\t", "")
 
+var byteRe = regexp.MustCompile(`\bbyte\b`)
+var runeRe = regexp.MustCompile(`\brune\b`)
+
 func tname(t types.Type) string {
 	s := types.TypeString(t, func(p *types.Package) string { return p.Name() })
+	s = runeRe.ReplaceAllString(byteRe.ReplaceAllString(s, "uint8"), "int32") // the universe aliases name the same types
 	if len(s) > 80 {
 		s = s[:80] + fmt.Sprintf("#%d", len(s))
 	}
